@@ -151,7 +151,7 @@ META["C04"] = {
                             "error estimators + controllers (equivariance class)"],
                    "stub": ["history-forcing ErrorEstimator/Control in the conserve class"],
                    "seam": ["probdiffeq.backend.flow (Python-stepped)", "recording Solver proxy"]},
-    "PROBES": ["init_constraint_term_counted", "unit_scale_twin_compared", "bitwise_same_history", "pow2_bitwise_means"],
+    "PROBES": ["init_constraint_term_counted", "unit_scale_twin_compared", "filtering_marginals_compared", "bitwise_same_history", "pow2_bitwise_means"],
     "ASSUMPTIONS": ["equivariance only with exact initial state, no damping, no diffuse derivatives (the only setting in which "
                     "the statement is mathematically true)", "margin rule: a twin run with a non-power-of-two c whose history "
                     "differs is inconclusive if some acceptance quantity was within 1e-6 of one",
@@ -160,4 +160,51 @@ META["C04"] = {
                   "equivariance under rescaling of the prior. Sampling, not proof.",
     "LEVEL_NOTE": "Trusted: sim/refmodel.py for the whitened residuals (step-local, from the real pre-state), sim/embed.py.",
     "TECHNIQUE": "deterministic simulation: forced accept/reject histories with conservation oracle over the recorded history; twin runs under rescaled prior",
+}
+
+META["C14"] = {
+    "LEVEL": "exploration",
+    "TIERS": {"quick": 112, "thorough": 5000},
+    "WALLCAP": {"quick": 420, "thorough": 5400},
+    "RULE": ("One evaluation = one seeded problem and history processed in lock step by replicas: dense/isotropic/block-diagonal "
+             "(TS0, default scales), dense vs isotropic on natural adaptive runs (attempt histories must coincide, margin rule), "
+             "block-diagonal TS1 vs d scalar dense solves on decoupled problems, isotropic vs dense TS1 on scalar-Jacobian "
+             "problems. States after every accepted step and all outputs are embedded densely and compared (means 1e-9, "
+             "covariances 1e-7 uncalibrated / 1e-5 calibrated, scales 1e-6). Distinct = distinct (cell, history digest); every "
+             "evaluation compares >= 2 replicas over >= 3 steps (non-trivial)."),
+    "COMPONENTS": {"real": ["state_space_model_dense / _isotropic / _blockdiag", "all solvers and strategies", "real loop"],
+                   "stub": ["history-forcing peers on common grids (as the property requires for dense vs block-diagonal)"],
+                   "seam": ["probdiffeq.backend.flow (Python-stepped)", "recording Solver proxy"]},
+    "PROBES": ["triple_compared", "adaptive_pair_same_history", "scalar_replicas_compared", "scalarjac_pair_compared"],
+    "ASSUMPTIONS": ["replica comparison only (no reference model involved)", "default base scales; damping identical in all replicas",
+                    "q <= 6, d <= 3"],
+    "LEVEL_TEXT": "Seeded exploration with lock-step replicas of the three factorisations on one history; first divergence is "
+                  "reported. Sampling, not proof.",
+    "LEVEL_NOTE": "Trusted: sim/embed.py (dense embedding from fields). Equalities asserted are exactly those listed in the property.",
+    "TECHNIQUE": "deterministic simulation: lock-step replicas of the factorisations on one seeded forced/natural history, divergence oracle after every event",
+}
+
+META["C13"] = {
+    "LEVEL": "exploration",
+    "TIERS": {"quick": 128, "thorough": 5000},
+    "WALLCAP": {"quick": 420, "thorough": 5400},
+    "RULE": ("One evaluation = one seeded smoother posterior (fixed-interval on fixed grids or save-every-step runs, fixed-point with "
+             "checkpoints; forced histories with rejections) or a prior sequence on a grid, sampled with a scripted random source: "
+             "all-zero draws (sample must equal the means), one one-hot run per scalar draw (identifies the affine map; its Gram "
+             "matrix must equal the joint covariance of all output times, 1e-7), draw count = outputs x state coordinates, "
+             "pairwise distinct keys, batched shapes. Distinct = distinct (cell, history digest); every evaluation identifies "
+             ">= 12 columns (non-trivial)."),
+    "COMPONENTS": {"real": ["MarkovSequence.sample / from_grid", "apply_flat + sample_flat of the three factorisations",
+                            "smoother runs producing the posteriors"],
+                   "stub": ["random source: backend.random.normal scripted; split logged"],
+                   "seam": ["probdiffeq.backend.random module attributes", "probdiffeq.backend.flow (Python-stepped)"]},
+    "PROBES": ["one_hot_columns", "batched_shape_checked"],
+    "ASSUMPTIONS": ["joint covariance oracle = the posterior's own backward factorisation embedded densely from its fields "
+                    "(C03 decides that this factorisation is the RTS posterior); prior-on-grid oracle = 50-digit reference",
+                    "q <= 3, d <= 3, <= 5 output times"],
+    "LEVEL_TEXT": "Seeded exploration with the random source owned by the simulator: the draw-to-sample map is identified exactly "
+                  "and compared with the joint Gaussian law. Sampling over posteriors, exact per posterior.",
+    "LEVEL_NOTE": "Trusted: sim/randseam.py, sim/embed.py, the linearity of the sampler in its draws (checked implicitly: zero "
+                  "draw + one-hot columns reproduce the Gram).",
+    "TECHNIQUE": "deterministic simulation with a scripted random source (zero / one-hot draws, key log) over posteriors from seeded smoother histories",
 }
